@@ -478,7 +478,9 @@ def run(ctx):  # noqa: C901, PLR0912, PLR0915
             if m.kind == 'stmt' and isinstance(m.stmt, ast.Assign) and any(isinstance(t, ast.Name) and t.id in names
                                                                            for t in m.stmt.targets):
                 tests += [ast.parse(txt, mode='eval').body for txt, _ in gf5.facts_at(m).both()]
-        probes = [unparse(t) for t in tests if any(isinstance(x, ast.Call) for x in ast.walk(t))]
+        FS = {'exists', 'is_file', 'isfile', 'is_dir', 'isdir', 'access', 'stat', 'lstat', 'glob', 'listdir', 'iterdir', 'open',
+              'read_text', 'read_bytes', 'getsize', 'resolve'}
+        probes = [unparse(t) for t in tests if any(isinstance(x, ast.Call) and call_name(x) in FS for x in ast.walk(t))]
         ok = ca is not None and not probes and not (isinstance(ca, ast.Constant) and ca.value is None)
         ctx.ob('C19.R5', 'folder variant passes the CA file on', ok,
                'mk_ssl_contexts_from_folder: the CA file goes to mk_ssl_contexts whenever ca_public_key names one' if ok else
